@@ -366,6 +366,39 @@ func TestVerifLedgerReplay(t *testing.T) {
 				break // the process would have stopped here
 			}
 		}
+		// C35: a different snapshot written at an already occupied topology position must be refused
+		// and must leave the stored order untouched (storage-level probe on a fabricated chain)
+		{
+			before := g.observe()
+			last, _ := w.store.LastSnapshot()
+			node := crypto.Blake3Hash([]byte(fmt.Sprintf("reuse-%d", wi)))
+			res, detail := vCall(func() error {
+				if err := w.store.StartNewRound(node, 0, nil, 0); err != nil {
+					return err
+				}
+				probe := &common.Snapshot{Version: common.SnapshotVersionCommonEncoding, NodeId: node, RoundNumber: 0,
+					Timestamp: last.Timestamp + 1, Transactions: []crypto.Hash{g.txs["D4"].PayloadHash()}}
+				if b, _, _ := w.store.ReadTransaction(g.txs["D4"].PayloadHash()); b == nil {
+					tx := g.txs["D4"]
+					if err := tx.LockInputs(w.store, false); err != nil {
+						return err
+					}
+					if err := w.store.WriteTransaction(tx); err != nil {
+						return err
+					}
+				}
+				return w.store.WriteSnapshot(&common.SnapshotWithTopologicalOrder{Snapshot: probe, TopologicalOrder: last.TopologicalOrder}, []crypto.Hash{node})
+			})
+			after := g.observe()
+			byHash, _ := w.store.ReadSnapshot(last.Hash)
+			same := byHash != nil && byHash.TopologicalOrder == last.TopologicalOrder && byHash.PayloadHash() == last.Hash
+			m := vM{"ev": "Reuse", "res": res, "pos": int(last.TopologicalOrder), "posbefore": before["pos"], "posafter": after["pos"],
+				"lookupsame": same, "hashok": after["hashok"]}
+			if res != "ok" {
+				m["detail"] = detail
+			}
+			tr.Emit(m)
+		}
 		w.close()
 	}
 }
